@@ -11,6 +11,8 @@ def regex_text(sp: dict) -> str:
             out += "."
         elif t == '"':
             out += '\\"'
+        elif t == " ":
+            out += " "          # literal blank: significant inside the regex, unlike white space between tokens
         else:
             out += re.escape(t)
     if sp["dollar"]:
